@@ -9,7 +9,8 @@ stated about the models, so a change of a formula in the Python source changes w
 theorems are about (and breaks the proofs when the property no longer follows).
 
 hosvd.py anchors
-  normxsqr        `normxsqr = (input_tensor**2).collapse()`                 (shape only)
+  normxsqr        `normxsqr = (ttb.tensor(input_tensor.double(), copy=False)**2).collapse()`  (shape only:
+                  the sum of squares of the data in floating point)
   eigsumthresh    `eigsumthresh = <expr in tol, normxsqr, d>`
   descending      `pi = np.argsort(-D, ...)`, `eigvec = D[pi]`              (shape only)
   rank_is_auto    `if ranks[k] == <int>:`
@@ -221,14 +222,22 @@ def read_hosvd(src):
             lost.append(f"{name}: {type(e).__name__}: {e}")
 
     def normxsqr():
+        # the sum of the squares of the data CONVERTED TO DOUBLE (2517f75): `(input_tensor**2).collapse()` wrapped
+        # around for integer-typed data, which the exact-arithmetic model `normSq` does not do — only the
+        # floating point form is accepted
         st = _one_assign(fn, "normxsqr")
         v = st.value
         ok = (isinstance(v, ast.Call) and not v.args and not v.keywords and isinstance(v.func, ast.Attribute)
               and v.func.attr == "collapse" and isinstance(v.func.value, ast.BinOp)
-              and isinstance(v.func.value.op, ast.Pow) and _int(v.func.value.right) == 2
-              and isinstance(v.func.value.left, ast.Name) and v.func.value.left.id == "input_tensor")
+              and isinstance(v.func.value.op, ast.Pow) and _int(v.func.value.right) == 2)
+        if ok:
+            base = v.func.value.left
+            ok = (isinstance(base, ast.Call) and ast.unparse(base.func) == "ttb.tensor" and len(base.args) == 1
+                  and ast.unparse(base.args[0]) == "input_tensor.double()"
+                  and all(k.arg == "copy" for k in base.keywords))
         if not ok:
-            raise Lost(f"normxsqr: expected `(input_tensor**2).collapse()`, found `{ast.unparse(v)}`")
+            raise Lost("normxsqr: expected `(ttb.tensor(input_tensor.double(), copy=False) ** 2).collapse()`, "
+                       f"found `{ast.unparse(v)}`")
         out["normxsqr_line"] = st.lineno
 
     def eigsumthresh():
